@@ -238,7 +238,7 @@ def run_ob(u, ob, inst, extra_defs, tier, use_cache=True, want_trace=True, reach
     t0 = time.time()
     a = os.path.join(d, 'a.gb')
     b = os.path.join(d, 'b.gb')
-    cmd1 = 'goto-cc --function %s -I %s %s %s -o %s' % (entry, q(INCLUDE), ' '.join(q(x) for x in defs), q(cpath), q(a))
+    cmd1 = 'goto-cc -Wall --function %s -I %s %s %s -o %s' % (entry, q(INCLUDE), ' '.join(q(x) for x in defs), q(cpath), q(a))
     rc, so, se, dt, to = sh(cmd1, timeout=120)
     cmds = [cmd1]
     if rc != 0:
